@@ -268,7 +268,7 @@ func (e *Engine) registerIfaceImpls() {
 // forceSorts registers the Go types the spec library mentions by sort name (pkg.Type),
 // so that their datatypes are declared before the spec text in every query.
 func (e *Engine) forceSorts() {
-	re := regexp.MustCompile(`[( ](?:I\.)?([a-z][a-z0-9]*)\.([A-Z][A-Za-z0-9]*)[). ]`)
+	re := regexp.MustCompile(`[( ](?:I\.)?([a-z][a-z0-9]*)\.([A-Z][A-Za-z0-9]*)\b`)
 	for _, m := range re.FindAllStringSubmatch(e.Spec.Text+e.Spec.PreText, -1) {
 		tp := e.pkgByShortName(nil, m[1])
 		if p, ok := e.PkgByName[m[1]]; ok {
